@@ -276,3 +276,51 @@ Definition adm (c : cfg) (a : arc) : bool :=
 
 Definition adm_nbrs (c : cfg) (g : raw) (v : nat) : list nat :=
   flat_map (fun a => match a_tgt a with Some t => if adm c a then [t] else [] | None => [] end) (getl g v).
+
+(* ------------------------------------------------------------------ roots as Python integers; compute() called again *)
+(* the range test of the three __init__ (a root that is not an element is refused: no negative-index wrap-around) *)
+Definition root_ok (k : kind) (r n : Z) : bool :=
+  match k with KEdge => edge_root_ok r n | KFace => face_root_ok r n | KCell => cell_root_ok r n end.
+
+Definition bfs_z (c : cfg) (g : raw) (root : Z) : option tree :=
+  if root_ok (c_kind c) root (Z.of_nat (length g)) then bfs c g (Z.to_nat root) else None.
+
+Definition tree_resets (k : kind) : bool :=
+  match k with KEdge => edge_resets | KFace => face_resets | KCell => cell_resets end.
+
+(* what one more compute() leaves in the tables: with the reset at its head, the fresh result; without it the
+   children / edges of the new run would be appended to those of the previous one *)
+Definition recompute (resets : bool) (prev new : tree) : tree :=
+  if resets then new
+  else mkTree (t_root new) (t_parent new)
+              (map (fun p => fst p ++ snd p) (combine (t_children prev) (t_children new)))
+              (t_edges prev ++ t_edges new) (t_seen new) (t_dist new) (t_done new).
+
+Fixpoint again {A} (k : nat) (f : A -> A) (x : A) : A := match k with 0 => x | S k' => again k' f (f x) end.
+
+(* the object after `calls` calls of compute() (calls >= 1) *)
+Definition bfs_calls (c : cfg) (g : raw) (root : Z) (calls : nat) : option tree :=
+  match bfs_z c g root with
+  | None => None
+  | Some t => Some (again (calls - 1) (fun acc => recompute (tree_resets (c_kind c)) acc t) t)
+  end.
+
+Definition forest_calls (k : kind) (polyline : bool) (g : raw) (calls : nat) : list tree :=
+  let f := forest k polyline g in
+  again (calls - 1) (fun acc => if forest_resets k then f else acc ++ f) f.
+
+Definition kruskal_z (i : kinput) (root : Z) : option ktree :=
+  if edge_root_ok root (Z.of_nat (ki_n i)) then
+    kruskal (mkKI (ki_n i) (ki_edges i) (ki_bord i) (ki_len i) (ki_custom i) (ki_mode_one i) (ki_mode_length i)
+                  (ki_avoid_bound i) (ki_polyline i) (Z.to_nat root))
+  else None.
+
+Definition krecompute (resets : bool) (prev new : ktree) : ktree :=
+  if resets then new
+  else mkKT (kt_ids prev ++ kt_ids new) (kt_edges prev ++ kt_edges new) (kt_parent new) (kt_children new) (kt_done new).
+
+Definition kruskal_calls (i : kinput) (root : Z) (calls : nat) : option ktree :=
+  match kruskal_z i root with
+  | None => None
+  | Some t => Some (again (calls - 1) (fun acc => krecompute kr_resets acc t) t)
+  end.
